@@ -74,6 +74,9 @@ def _shared_default(d) -> bool:
     return False
 
 
+WORK_BUDGET = 20000     # definition contributions computed per function before contexts are merged (see _Analyzer.name)
+
+
 class Effects:
     def __init__(self, repo: Repo):
         self.repo = repo
@@ -171,6 +174,7 @@ class _Analyzer:
         self.cuts = 0
         self.defmemo: Dict[tuple, list] = {}
         self._frames: List[list] = []
+        self._work = 0
         self.used: Set[str] = set()
         self.sites: Dict[int, tuple] = {}
         self.compute_facts()
@@ -439,6 +443,11 @@ class _Analyzer:
                 if H <= seen and not (V & seen):
                     got = (V, H, res)
                     break
+            if got is None and self._work > WORK_BUDGET and self.defmemo.get(k2):
+                # deeply nested branch structures (a dispatch written out three levels deep) make the number of distinct resolution
+                # contexts explode; past the budget a contribution computed in another context is reused: the definitions that were cut
+                # there are on some resolution stack of this evaluation as well and contribute where they are resolved
+                got = max(self.defmemo[k2], key=lambda e_: len(e_[2]))
             if got is not None:
                 self._note(visited=got[0] | {k2}, hits=got[1])
                 out |= got[2]
@@ -474,6 +483,7 @@ class _Analyzer:
 
     def _def_atoms(self, nm: str, d: int, s2: frozenset) -> Set[Atom]:
         """what the definition of `nm` at node d contributes"""
+        self._work += 1
         out: Set[Atom] = set()
         if d == self.g.entry:
             if self.f.is_method and nm == self.f.self_name:
